@@ -19,6 +19,24 @@ CHECKS = {
         assumptions=['interleavings explored at synchronisation operations only; sound because the same runs execute under ThreadSanitizer (flavour T) which reports unsynchronised conflicting accesses even in a serialised run',
                      'client programs never post concurrently with POOL_free from another client and never joinJobs from inside a job'],
     ),
+    'C13': dict(
+        level='fault_enumeration',
+        batches=[dict(scenario='c13oom', flavour='P', quick=16 * 64 * 4, thorough=16 * 64 * 40),
+                 dict(scenario='c13oom', flavour='A', quick=16 * 64 * 2, thorough=16 * 64 * 12)],
+        rule='run = (API scenario S of 16, fault index k): gen counts allocs(S) fault-free under the run\'s schedule, then allocation 1+(j mod n) fails; 16*64 consecutive runs sweep every k (scenarios have at most 64 allocations; allocs_sum/runs in probes gives the mean) of every scenario for one variant; distinct = distinct plan signature (S, variant, k); non-trivial = the injected failure actually fired',
+        real=REAL_COMMON + ['lib/dictBuilder trainers via libc seam'], stub=STUB_COMMON + ['libc malloc/calloc/realloc/free via -Wl,--wrap (armed only inside the call under test)'],
+        assumptions=['one (thorough: sometimes two) failing allocation per run', 'allocation sequence deterministic given the schedule seed (simsched)', 'catalogue of 16 API scenarios; not every API entry point'],
+    ),
+    'C11': dict(
+        level='exploration',
+        batches=[dict(scenario='c11mt', flavour='P', quick=6400, thorough=200000),
+                 dict(scenario='c11mt', flavour='T', quick=1280, thorough=30000, workers=16),
+                 dict(scenario='c11mt', flavour='A', quick=960, thorough=20000)],
+        rule='seeded MT sessions (1-3 frames through one CCtx, per-frame worker counts, dict/prefix/CDict, mid-frame level changes, abandoned frames, free mid-frame) x schedules (rw/pct/sticky/starve) x fault plans (every 5th run: spurious wake-ups, pthread_create/init failure, allocation failure); distinct = distinct (plan signature, schedule signature); non-trivial = at least 2 compression jobs ran',
+        real=REAL_COMMON, stub=STUB_COMMON + ['byte transport between compressor and decoder (simio)', 'independent decoder: vendored educational decoder + own XXH64 (ref/)'],
+        assumptions=['interleavings explored at synchronisation operations only; the T flavour (ThreadSanitizer over the same runs, scheduler invisible to it) reports any conflicting accesses those operations do not order',
+                     'fair scheduling after 500 consecutive picks of one thread (zstd busy-waits with tryAdd/lock while a worker finishes)'],
+    ),
 }
 
 def default_root(tier):
